@@ -280,6 +280,8 @@ def new_version(data, allow_custom=None, **kwargs):
             new_obj_inner["allow_custom"] = data.has_custom
         else:
             new_obj_inner["allow_custom"] = allow_custom
+        if getattr(data, "_interoperability", False):
+            new_obj_inner["interoperability"] = True
 
     # Exclude properties with a value of 'None' in case data is not an instance of a _STIXBase subclass
     return cls(**{k: v for k, v in new_obj_inner.items() if v is not None})
